@@ -1,53 +1,193 @@
 ------------------------------- MODULE Sentinel -------------------------------
-(* Bounded model of the composed chain (see SentinelOps): every caps / breaker clause of the single-module *)
-(* properties must survive the composition.                                                                *)
-EXTENDS SentinelOps, Sequences, TLC
+(***************************************************************************)
+(* Bounded model of the composed default chain (see SentinelOps): every    *)
+(* caps / breaker clause of the single-module properties must survive the  *)
+(* composition, and the composition itself has clauses of its own.         *)
+(*                                                                         *)
+(* Operations: Enter (resource, batch, argument, inbound / outbound),      *)
+(* Exit (plain or with an error; via Exit(WithError) or api.TraceError     *)
+(* just before the Exit - a label of the history, the meaning is the       *)
+(* same), TraceE (an error reported on an entry that stays open), Late     *)
+(* (Exit / Exit(WithError) / TraceError on an entry that has already       *)
+(* completed: changes nothing), Tick, Reload (the rule(s) of one module of *)
+(* one resource, or the system rules, replaced in the middle of the        *)
+(* history; via = whole-set or per-resource load call: a label).           *)
+(*                                                                         *)
+(* The invariants speak about the SETS of live entries; the operators of   *)
+(* SentinelOps decide from the gauges the code reads.                      *)
+(*  GaugeConserved   inbound gauge = live inbound entries of all           *)
+(*                   resources; resource gauge = live entries              *)
+(*  HotConserved     units in use for a value = live entries admitted for  *)
+(*                   it on the counters in use (C06 FigureInRange, exact)  *)
+(*  IsoCap, HotCap, FlowCap, SysCap, HqRange   the single-module caps (for *)
+(*                   a rule that has not been replaced; after a reload the *)
+(*                   entries in flight may exceed a lowered threshold)     *)
+(*  ChainExact       every request gets the verdict of the FIRST slot, in  *)
+(*                   the order system, flow, isolation, hotspot, breaker,  *)
+(*                   whose rule IN FORCE is violated by the figures of the *)
+(*                   moment (sets of live entries, windows, token cells,   *)
+(*                   breaker state); admitted iff there is none            *)
+(*  SystemFirst      an inbound request that violates a system rule is     *)
+(*                   blocked with type system whatever the other modules   *)
+(*                   say; an outbound request never is                     *)
+(*  ReloadRespected  an admitted request satisfies every rule in force at  *)
+(*                   that moment (not the rules loaded earlier)            *)
+(*  BreakerQuiet     nothing is admitted while the breaker is open before  *)
+(*                   its deadline or half-open                             *)
+(*  BlockedInvisible a blocked request changes nothing - except the token  *)
+(*                   cells of the hot-parameter QPS rule when it is the    *)
+(*                   BREAKER that refuses it (the hotspot slot was passed) *)
+(*  Independence     an operation on one resource leaves the state of the  *)
+(*                   others untouched; IndependentDecision: the verdict    *)
+(*                   for a resource is the verdict it would get if the     *)
+(*                   other resources had never been used (the state of the *)
+(*                   global inbound node apart)                            *)
+(*  ReloadKeeps      a reload moves no gauge, window or live entry; an     *)
+(*                   unchanged breaker rule keeps its breaker, a changed   *)
+(*                   one starts Closed; hot-parameter counters survive a   *)
+(*                   mere change of threshold                              *)
+(* Mutants (constant Mut): deliberately broken compositions; TLC must      *)
+(* reject every one of them (checks/COMPOSE.py).                           *)
+(***************************************************************************)
+EXTENDS SentinelOps, TLC
 
-CONSTANTS Rules,      \* set of rule records to explore (chosen in Init)
-          Args, Batches, Steps, MaxOps, MaxT
+CONSTANTS Res,        \* resources
+          Rules,      \* set of rule records to explore (chosen in Init)
+          Reloads,    \* set of [r, mod, val]: the reloads that may happen (r = 0 for mod = "sys")
+          Args, Batches, Types, Steps, MaxOps, MaxT, MaxRel,
+          WithTrace,  \* TraceE as an action of its own
+          WithLate,   \* Late calls
+          Mut         \* "none" = the design
 
-VARIABLES S, R, nid, nops, last, h
-vars == <<S, R, nid, nops, last, h>>
-view == <<S, R, nid, nops, last>>
+V == CASE Mut = "none"          -> Design
+       [] Mut = "sysAfterFlow"  -> [Design EXCEPT !.order = <<"flow", "system", "isolation", "hotspot", "breaker">>]
+       [] Mut = "hotBeforeFlow" -> [Design EXCEPT !.order = <<"system", "hotspot", "flow", "isolation", "breaker">>]
+       [] Mut = "sysOutbound"   -> [Design EXCEPT !.sysOut = TRUE]
+       [] Mut = "isoReset"      -> [Design EXCEPT !.isoReset = TRUE]
+       [] Mut = "blockedCounts" -> [Design EXCEPT !.blockedCounts = TRUE]
+       [] Mut = "exitCurrent"   -> [Design EXCEPT !.exitCurrent = TRUE]
+       [] Mut = "cbForget"      -> [Design EXCEPT !.cbForget = TRUE]
+       [] Mut = "shared"        -> [Design EXCEPT !.shared = TRUE]
 
-Init == /\ R \in Rules /\ S = InitState(1) /\ nid = 0 /\ nops = 0
-        /\ last = [ok |-> TRUE, bt |-> "none", probe |-> FALSE]
+VARIABLES S, R, nid, nrel, touched, h
+vars == <<S, R, nid, nrel, touched, h>>
+view == <<S, R, nid, nrel, touched>>
+
+Init == /\ R \in Rules /\ S = InitState(1, Res) /\ nid = 0 /\ nrel = 0 /\ touched = {}
         /\ h = << [op |-> "new", rules |-> R] >>
 
-Enter(b, arg) ==
-    /\ nops < MaxOps
-    /\ LET d == Decide(S, R, b, arg) IN
-       /\ last' = [ok |-> d.ok, bt |-> d.bt, probe |-> d.ok /\ CbProbes(S, R)]
-       /\ S' = AfterEntry(S, R, nid + 1, b, arg)
-    /\ nid' = nid + 1 /\ nops' = nops + 1
-    /\ h' = Append(h, [op |-> "enter", id |-> nid + 1, b |-> b, arg |-> arg])
-    /\ UNCHANGED R
+Enter(r, q) ==
+    /\ nid < MaxOps
+    /\ LET d == DecideV(V, S, R, r, q) IN
+       h' = Append(h, [op |-> "enter", r |-> r, id |-> nid + 1, b |-> q.b, arg |-> q.arg, ty |-> q.ty, ok |-> d.ok, bt |-> d.bt])
+    /\ S' = AfterEntryV(V, S, R, r, nid + 1, q)
+    /\ nid' = nid + 1
+    /\ UNCHANGED <<R, nrel, touched>>
 
-Exit(e, err) ==
-    /\ S' = AfterExit(S, R, e.id, err)
-    /\ last' = [ok |-> TRUE, bt |-> "none", probe |-> FALSE]
-    /\ h' = Append(h, [op |-> "exit", id |-> e.id, err |-> err])
-    /\ UNCHANGED <<R, nid, nops>>
+Exit(r, e, err, via) ==
+    /\ S' = AfterExitV(V, S, R, r, e.id, err)
+    /\ h' = Append(h, [op |-> "exit", r |-> r, id |-> e.id, err |-> err, via |-> via])
+    /\ UNCHANGED <<R, nid, nrel, touched>>
+
+TraceE(r, e) ==
+    /\ WithTrace /\ ~e.err
+    /\ S' = AfterTrace(S, r, e.id)
+    /\ h' = Append(h, [op |-> "trace", r |-> r, id |-> e.id])
+    /\ UNCHANGED <<R, nid, nrel, touched>>
+
+Late(id, how) ==
+    /\ WithLate /\ \A r \in Res : ~IsLive(S, r, id)
+    /\ h' = Append(h, [op |-> "late", id |-> id, how |-> how])
+    /\ UNCHANGED <<S, R, nid, nrel, touched>>
 
 Tick(d) ==
     /\ S.now + d <= MaxT
     /\ S' = AfterTick(S, d)
-    /\ last' = [ok |-> TRUE, bt |-> "none", probe |-> FALSE]
     /\ h' = Append(h, [op |-> "tick", d |-> d])
-    /\ UNCHANGED <<R, nid, nops>>
+    /\ UNCHANGED <<R, nid, nrel, touched>>
 
-Next == \/ \E b \in Batches, a \in Args : Enter(b, a)
-        \/ \E e \in S.live, err \in BOOLEAN : Exit(e, err)
+Reload(x, via) ==
+    /\ nrel < MaxRel
+    /\ R' = NewRules(R, x.r, x.mod, x.val)
+    /\ S' = AfterReloadV(V, S, R, x.r, x.mod, x.val)
+    /\ nrel' = nrel + 1 /\ touched' = touched \cup {<<x.r, x.mod>>}
+    /\ h' = Append(h, [op |-> "reload", r |-> x.r, mod |-> x.mod, val |-> x.val, via |-> via])
+    /\ UNCHANGED nid
+
+Reqs == [b : Batches, arg : Args, ty : Types]
+Next == \/ \E r \in Res, q \in Reqs : Enter(r, q)
+        \* (how the error of a completion is reported is a label: alternate, so that no transition is generated twice)
+        \/ \E r \in Res : \E e \in S.res[r].live : \/ Exit(r, e, FALSE, "exit")
+                                                   \/ Exit(r, e, TRUE, IF (e.id + S.now) % 2 = 0 THEN "trace" ELSE "exit")
+                                                   \/ TraceE(r, e)
+        \/ \E id \in 1..nid, how \in {"exit", "exiterr", "trace"} : Late(id, how)
         \/ \E d \in Steps : Tick(d)
+        \/ \E x \in Reloads : Reload(x, IF (nid + nrel) % 2 = 0 THEN "res" ELSE "all")
 Spec == Init /\ [][Next]_vars
 
-\* the single-module caps survive the composition
-IsoCap   == R.iso >= 0 => Cardinality(S.live) <= (IF R.iso > 0 THEN R.iso ELSE 0)
-HotCap   == R.hot >= 0 => \A a \in Args \ {"none"} : Cardinality(LiveFor(S, a)) <= R.hot
-FlowCap  == R.flow >= 0 => RefSum(S.ref, 1, S.now, 2, "pass") <= R.flow
-\* while the breaker is open and the retry timeout has not elapsed nothing is admitted; half-open admits nothing but the probe
-BreakerQuiet == [][(S'.live # S.live /\ Cardinality(S'.live) > Cardinality(S.live)) =>
-                      (R.cbE < 0 \/ S.cb.st = "C" \/ (S.cb.st = "O" /\ S.now >= S.cb.retryAt))]_vars
-\* short-circuit: a request rejected by an earlier slot is not the breaker's probe and consumes nothing anywhere
-BlockedInvisible == [][(last'.ok = FALSE /\ nid' = nid + 1) => S' = S]_vars
+(***************************************************************************)
+(* state invariants                                                        *)
+(***************************************************************************)
+InLive == Cardinality(UNION { { <<r, e.id>> : e \in { x \in S.res[r].live : x.inb } } : r \in Res })
+Counted(X, a) == { e \in X.live : e.arg = a /\ e.hc }
+Fresh(r, mod) == <<r, mod>> \notin touched
+MaxB == CHOOSE b \in Batches : \A c \in Batches : c <= b
+
+GaugeConserved == S.ic = InLive /\ \A r \in Res : S.res[r].rc = Cardinality(S.res[r].live)
+HotConserved   == \A r \in Res : /\ DOMAIN S.res[r].hcnt \subseteq Args \ {"none"}
+                                 /\ \A a \in Args \ {"none"} : Get(S.res[r].hcnt, a) = Cardinality(Counted(S.res[r], a))
+IsoCap  == \A r \in Res : (R.res[r].iso >= 0 /\ Fresh(r, "iso")) => Cardinality(S.res[r].live) <= R.res[r].iso
+HotCap  == \A r \in Res : (R.res[r].hot >= 0 /\ Fresh(r, "hot")) =>
+               \A a \in Args \ {"none"} : Cardinality(LiveFor(S.res[r], a)) <= R.res[r].hot
+FlowCap == \A r \in Res : (R.res[r].flow >= 0 /\ Fresh(r, "flow")) => Window(S.res[r].ref, S.now) <= R.res[r].flow
+SysCap  == Fresh(0, "sys") =>
+             /\ R.sys.conc >= 0 => InLive <= R.sys.conc
+             /\ R.sys.qps >= 0 => Window(S.iref, S.now) <= (IF R.sys.qps = 0 THEN 0 ELSE R.sys.qps - 1 + MaxB)
+HqRange == \A r \in Res : \A a \in DOMAIN S.res[r].hk :
+               /\ S.res[r].hk[a] >= 0
+               /\ (R.res[r].hq >= 0 /\ Fresh(r, "hq")) => S.res[r].hk[a] <= R.res[r].hq + R.res[r].hqB
+\* the verdict for r does not depend on what happened on the other resources (the global inbound node apart)
+Alone(r) == [S EXCEPT !.res = [x \in Res |-> IF x = r THEN @[x] ELSE InitRes]]
+IndependentDecision == \A r \in Res, q \in Reqs : DecideV(V, S, R, r, q) = DecideV(V, Alone(r), R, r, q)
+
+(***************************************************************************)
+(* action properties; o = the operation of the step (last record of h')    *)
+(***************************************************************************)
+o == h'[Len(h')]
+\* is the rule in force violated by the figures of the moment (pre-state)?  From the sets of live entries.
+PSys   == o.ty = "in" /\ (\/ R.sys.conc >= 0 /\ InLive >= R.sys.conc
+                          \/ R.sys.qps >= 0 /\ Window(S.iref, S.now) >= R.sys.qps)
+PFlow  == LET RR == R.res[o.r] IN RR.flow >= 0 /\ Window(S.res[o.r].ref, S.now) + o.b > RR.flow
+PIso   == LET RR == R.res[o.r] IN RR.iso >= 0 /\ Cardinality(S.res[o.r].live) + o.b > RR.iso
+PHotC  == LET RR == R.res[o.r] IN RR.hot >= 0 /\ o.arg # "none" /\ Cardinality(Counted(S.res[o.r], o.arg)) + 1 > RR.hot
+PHotQ  == LET RR == R.res[o.r]  X == S.res[o.r] IN
+          RR.hq >= 0 /\ o.arg # "none" /\ ~HQ!RejectStep(HqCf(RR), AsCache(X.ht), AsCache(X.hk), o.arg, o.b, S.now * TickMs).ok
+PHot   == PHotC \/ PHotQ
+PCb    == CbBlocks(S.res[o.r], R.res[o.r], S.now)
+FirstBlocker == IF PSys THEN "system" ELSE IF PFlow THEN "flow" ELSE IF PIso THEN "isolation"
+                ELSE IF PHot THEN "hotspot" ELSE IF PCb THEN "breaker" ELSE "none"
+
+ChainExact      == [][o.op = "enter" => (o.bt = FirstBlocker /\ o.ok = (FirstBlocker = "none"))]_vars
+SystemFirst     == [][o.op = "enter" => /\ PSys => (~o.ok /\ o.bt = "system")
+                                        /\ o.bt = "system" => PSys
+                                        /\ o.ty = "out" => o.bt # "system"]_vars
+ReloadRespected == [][(o.op = "enter" /\ o.ok) => ~(PSys \/ PFlow \/ PIso \/ PHot \/ PCb)]_vars
+BreakerQuiet    == [][(o.op = "enter" /\ o.ok) => ~PCb]_vars
+BlockedInvisible == [][(o.op = "enter" /\ ~o.ok) =>
+                        /\ S' = [S EXCEPT !.res[o.r].ht = S'.res[o.r].ht, !.res[o.r].hk = S'.res[o.r].hk]
+                        /\ o.bt # "breaker" => S' = S]_vars
+Independence    == [][(o.op \in {"enter", "exit", "trace"} \/ (o.op = "reload" /\ o.mod # "sys")) =>
+                        \A x \in Res \ {o.r} : S'.res[x] = S.res[x]]_vars
+Ids(X) == { e.id : e \in X.live }
+Plain(X) == { [e EXCEPT !.hc = FALSE] : e \in X.live }
+ReloadKeeps     == [][o.op = "reload" =>
+                        /\ S'.ic = S.ic /\ S'.iref = S.iref /\ S'.now = S.now
+                        /\ \A x \in Res : /\ S'.res[x].rc = S.res[x].rc /\ S'.res[x].ref = S.res[x].ref
+                                          /\ Plain(S'.res[x]) = Plain(S.res[x])
+                        /\ o.mod # "sys" =>
+                             LET RR == R.res[o.r]  X == S.res[o.r]  Y == S'.res[o.r] IN
+                             /\ (o.mod # "cb" \/ (RR.cbE = o.val.cbE /\ RR.cbTO = o.val.cbTO)) => Y.cb = X.cb
+                             /\ (o.mod = "cb" /\ ~(RR.cbE = o.val.cbE /\ RR.cbTO = o.val.cbTO)) => Y.cb.st = "C"
+                             /\ (o.mod # "hot" \/ (RR.hot >= 0 /\ o.val.v >= 0)) => (Y.hcnt = X.hcnt /\ Y.live = X.live)
+                             /\ (o.mod # "hq" \/ (RR.hq >= 0 /\ o.val.hq >= 0 /\ RR.hqD = o.val.hqD)) => (Y.ht = X.ht /\ Y.hk = X.hk)]_vars
 =============================================================================
